@@ -44,6 +44,18 @@ AsciiWordsOp(s) == AsciiScan(s, 1, 1, FALSE, <<>>)
 \* visible characters before the break (so Len(StripSeq(s)) is the final, mandatory one).
 \* They are an input: an oracle (unicode-linebreak) in traces, a free set in model checking.
 
+\* The one fact about UAX #14 the specification assumes (rule LB7: no break before a space, except
+\* directly after a character that forces a break: LB4/LB5); it is re-checked on every oracle answer
+\* the harness logs.
+HardBreaks == {10, 11, 12, 13, 133, 8232, 8233}
+OppsSane(s, opps) ==
+  LET st == StripSeq(s) IN
+  \A x \in opps : x >= 0 /\ x <= Len(st) /\ ((x >= 1 /\ x < Len(st) /\ st[x + 1] = SP) => st[x] \in HardBreaks)
+\* all admissible opportunity sets of a line (model checking: the oracle is a free input)
+FreeOppSets(s) ==
+  LET st == StripSeq(s) n == Len(st)
+  IN {T \cup (IF n > 0 THEN {n} ELSE {}) : T \in SUBSET {x \in 1..(n - 1) : st[x + 1] # SP \/ st[x] \in HardBreaks}}
+
 \* declarative (C11): all opportunities but the end of the line, minus those directly after
 \* '-' or SHY
 UaxKeptDecl(s, opps) ==
